@@ -448,10 +448,13 @@ static void run_driver(vf_case *c, const row_t *w, int rowi, int b)
     /* a caller workspace (lwork > 0) only for asserted rows: an accepted probe would go on to factor inside it, and what
        happens there is the subject of C08/C19, not of this check */
     int use_work = rt != RT_GSSV && (factmode == DOFACT || factmode == SamePattern) && rng_bool(r, 0.3) && w->doc;
+    /* the otherwise valid call may also be a workspace size query (lwork = -1 with a factorization requested) */
+    int use_query = !use_work && rt != RT_GSSV && factmode != FACTORED && w->doc && w->kind != K_LWORK && rng_bool(r, 0.25);
     gen_tuning(r, 1);
     vf_desc(c, "row %d: %c%s arg %d %s -> documented info -%d%s; base: n=%d %s %s nrhs=%d ldb=%d ldx=%d Fact=%s equed=%c colperm=%s equil=%d trans=%d %s lwork%s",
             rowi, P->letter, rt_name[rt], w->pos, w->what, w->pos, w->doc ? "" : " [probe: undocumented]", n, x->rowmajor ? "NR" : "NC", scaled ? "scaled" : "unscaled",
-            x->nrhs, x->ldb, x->ldx, fact_names[factmode], eq, colperm_names[colperm], equil, trans, rt == RT_GSISX ? "ilu" : "", use_work ? ">0" : "=0");
+            x->nrhs, x->ldb, x->ldx, fact_names[factmode], eq, colperm_names[colperm], equil, trans, rt == RT_GSISX ? "ilu" : "", use_work ? ">0" : use_query ? "=-1 (size query)" : "=0");
+    if (use_query) vf_tag(c, "base=size-query");
     vf_tag(c, "base=%s/%s/%c", x->rowmajor ? "NR" : "NC", fact_names[factmode], eq);
 
     mk_sparse(P, &x->Am, x->rowmajor, &x->A); x->haveA = 1;
@@ -484,6 +487,7 @@ static void run_driver(vf_case *c, const row_t *w, int rowi, int b)
     /* phase 2: the same call with exactly one argument corrupted */
     x->opt.Fact = (fact_t)factmode; x->opt.Equil = equil ? YES : NO;
     if (use_work) { x->lwork = 1 << 16; x->work = malloc((size_t)x->lwork); }
+    if (use_query) { x->lwork = -1; x->work = NULL; }
     save_headers(x);
     if (!apply_corruption(x)) { vf_skip(c, "row not applicable"); ctx_cleanup(x); return; }
     regs_t g; g.k = 0;
